@@ -231,6 +231,7 @@ pub fn run_type<T: Reg>(cx: &mut Cx, name: &str) {
 	// values of more than 8 KB cost the model's evaluator a second each: a couple of cases suffice
 	let heavy = T::min_wire() > 8000;
 	cx.ntypes += 1;
+	cx.cases.begin_type();
 	if let Some(only) = cx.only.clone() {
 		if only[0] != name {
 			return;
